@@ -253,13 +253,24 @@ pub fn num_eq(a: &str, b: &str) -> bool {
 
 /// Same JSON document: same structure, same member order, duplicates kept, numbers by value.
 pub fn same(a: &J, b: &J) -> bool {
+    same_with(a, b, false)
+}
+
+/// `numeric_keys`: member names that are both numbers may also match by value (used only where two
+/// different number formatters wrote the keys).
+pub fn same_with(a: &J, b: &J, numeric_keys: bool) -> bool {
     match (a, b) {
         (J::Null, J::Null) => true,
         (J::Bool(x), J::Bool(y)) => x == y,
         (J::Num(x), J::Num(y)) => num_eq(x, y),
         (J::Str(x), J::Str(y)) => x == y,
-        (J::Arr(x), J::Arr(y)) => x.len() == y.len() && x.iter().zip(y).all(|(p, q)| same(p, q)),
-        (J::Obj(x), J::Obj(y)) => x.len() == y.len() && x.iter().zip(y).all(|((k1, p), (k2, q))| k1 == k2 && same(p, q)),
+        (J::Arr(x), J::Arr(y)) => x.len() == y.len() && x.iter().zip(y).all(|(p, q)| same_with(p, q, numeric_keys)),
+        (J::Obj(x), J::Obj(y)) => {
+            x.len() == y.len()
+                && x.iter().zip(y).all(|((k1, p), (k2, q))| {
+                    (k1 == k2 || (numeric_keys && matches!((k1.parse::<f64>(), k2.parse::<f64>()), (Ok(f), Ok(g)) if f == g))) && same_with(p, q, numeric_keys)
+                })
+        }
         _ => false,
     }
 }
